@@ -1,5 +1,15 @@
 package main
 
+import (
+	"fmt"
+	"os"
+	"runtime/debug"
+	"sort"
+	"strings"
+)
+
+var dbgUB = os.Getenv("GOVC_DBG_UB")
+
 // Cheap unsigned upper bounds for bit-vector terms, fed by always-valid facts (type invariants). Used by the
 // simplifier to decide comparisons such as (2^64-3 <u len) without calling a solver.
 
@@ -9,34 +19,111 @@ var knownUB = map[int]uint64{}
 // get the fact back as an assumption, since later constructions of the same comparison simplify to true.
 var boundFact = map[int]*Term{}
 
+// Only bounds of atoms (input symbols, fresh symbols, values read from memory, uninterpreted applications) are learned:
+// those are type invariants of the symbol itself and hold on every path and in every function that mentions it. A
+// bound of a compound term (pos-14, off+cap, ...) may have been derived under a path condition (a bounds check that
+// passed); it stays an ordinary fact of its state and is never used to simplify terms built elsewhere.
+func atomic(t *Term) bool {
+	switch t.Op {
+	case "var", "select", "app":
+		return true
+	}
+	return false
+}
+
 func setUB(t *Term, v uint64) {
+	if !atomic(t) {
+		return
+	}
 	if old, ok := knownUB[t.ID]; !ok || v < old {
+		if dbgUB != "" && strings.Contains(showTerm(t, 3), dbgUB) {
+			fmt.Fprintf(os.Stderr, "SETUB %s <= %x\n%s\n", showTerm(t, 3), v, debug.Stack())
+		}
 		knownUB[t.ID] = v
 		if t.Sort.IsBV() && !t.hasBound {
 			boundFact[t.ID] = mk("bvule", SBool, t, BVConst(v, t.Sort.Width()))
+			boundTerm[t.ID] = t
 		}
 	}
 }
 
-// boundFactsFor returns the learned bound facts of all terms occurring in fs.
+// boundAtoms: the maximal non-arithmetic subterms of a bounded term (for off+cap: off and cap)
+var boundAtoms = map[int][]int{}
+var boundTerm = map[int]*Term{}
+
+func atomsOf(t *Term) []int {
+	if a, ok := boundAtoms[t.ID]; ok {
+		return a
+	}
+	seen := map[int]bool{}
+	var out []int
+	var walk func(t *Term)
+	walk = func(t *Term) {
+		switch t.Op {
+		case "bvadd", "bvsub", "bvmul", "extract", "zero_extend", "sign_extend", "concat", "bvneg", "bvand", "bvor", "bvshl", "bvlshr":
+			for _, a := range t.Args {
+				walk(a)
+			}
+		case "bvconst", "intconst":
+		default:
+			if !seen[t.ID] {
+				seen[t.ID] = true
+				out = append(out, t.ID)
+			}
+		}
+	}
+	walk(t)
+	boundAtoms[t.ID] = out
+	return out
+}
+
+// boundFactsFor returns the learned bound facts that speak about the terms occurring in fs: the facts of every
+// bounded term that occurs itself, and of every bounded arithmetic combination (off+cap, ...) all of whose operands
+// occur (later constructions of such a comparison simplify to true, so the query would otherwise lose the fact).
 func boundFactsFor(fs ...*Term) []*Term {
 	seen := map[int]bool{}
-	var out []*Term
 	var walk func(t *Term)
 	walk = func(t *Term) {
 		if seen[t.ID] {
 			return
 		}
 		seen[t.ID] = true
-		if f, ok := boundFact[t.ID]; ok {
-			out = append(out, f)
-		}
 		for _, a := range t.Args {
 			walk(a)
 		}
 	}
 	for _, f := range fs {
 		walk(f)
+	}
+	var ids []int
+	for id := range boundFact {
+		ids = append(ids, id)
+	}
+	sort.Ints(ids)
+	var out []*Term
+	for _, id := range ids {
+		if seen[id] {
+			out = append(out, boundFact[id])
+			continue
+		}
+		t := boundTerm[id]
+		if t == nil {
+			continue
+		}
+		as := atomsOf(t)
+		if len(as) == 0 || len(as) == 1 && as[0] == id {
+			continue
+		}
+		all := true
+		for _, a := range as {
+			if !seen[a] {
+				all = false
+				break
+			}
+		}
+		if all {
+			out = append(out, boundFact[id])
+		}
 	}
 	return out
 }
